@@ -56,7 +56,15 @@ ASSUMPTIONS = [
     "encoding/asn1: optional / default fields are omitted exactly when they hold the default; a BIT STRING is accepted iff its unused bits are zero; *big.Int is written as minimal two's complement",
     "verification under a different key and after byte changes relies on the primitives (SM2: C01; RSA, ECDSA: standard library)",
 ]
-RULE = ("seeded generator (VERIF_SEED): every (kind, signer, algorithm) combination once (kind in cert/csr/crl/rl, signer in SM2/RSA-2048/P-256, "
+RULE = ("T case lines carry, besides the seed, (field 8) whether the template lies inside the documented domain of its fields (v) or has a "
+        "planted invalid value (x: invalid UTF-8, year 10000, non-IA5 or empty permitted domain, NextUpdate before ThisUpdate - decided by "
+        "the generator from the field documentation, never by calling the package) and (field 9, certificates) the template values of serial, "
+        "validity, key usage, basic constraints, SANs and the subject public key. The predicate demands creation for every v template with an "
+        "acceptable (signer, algorithm) pair (its own table), reads the DER of every created certificate with its own DER reader and compares "
+        "those fields (public key also checked to lie on the SM2 curve), and sees CheckSignatureFrom and CheckSignature separately (a mutant "
+        "survives if EITHER accepts it). Quick: 441 T cases (every (kind, signer, algorithm) once + 240 random, SM2 signer 1/2), of which ~300 "
+        "are created objects (~60 SM2 certificates, ~30 SM2 CRLs). "
+        "Seeded generator (VERIF_SEED): every (kind, signer, algorithm) combination once (kind in cert/csr/crl/rl, signer in SM2/RSA-2048/P-256, "
         "algorithm in 0..19, 99, -1), then random templates of varying richness: serials (negative, 0, 20-byte with/without top bit, 40 bytes), "
         "names with multi-valued and extra attributes and non-ASCII strings, validity bounds (1950/2049/2050/9999, time zones), all key-usage bits, "
         "EKUs incl. unknown OIDs, basic constraints and path lengths incl. MaxPathLenZero, SANs of each kind, name constraints, policy OIDs, "
@@ -90,16 +98,19 @@ def _same_T(f, io, mo):
     NextUpdate before ThisUpdate ...) or a created object that does not parse is outside it."""
     if not io or not mo or io[0] != "ok" or mo[0] != "ok":
         return bool(io) and bool(mo) and io[0] == mo[0]
+    tmpl = f[7] if len(f) > 7 else "?"
     if io[1] == "0":
         why = io[-1]
         if why.startswith(ALGO_ERRORS):
             return mo[1] == "0"
-        return True                  # template refused before or after signingParamsForPublicKey: outside the model
+        # refused for another reason: expected only for templates with a planted invalid value (field 8 = x); a valid
+        # template (v) that is refused disagrees with the model, which predicts creation from the (signer, algorithm) pair
+        return tmpl != "v"
     if mo[1] != "1":
         return False
     if len(io) > 10 and io[10].startswith("parsefail:"):
         return True
-    return io[3] == mo[2]
+    return (set(io[3]) == {"1"}) == (mo[2] == "1")
 
 
 SM2_ALGS = {16, 17, 18}
@@ -115,6 +126,178 @@ def _algo(f):
         return int(f[4])
     except (ValueError, IndexError):
         return None
+
+
+# the (signer, algorithm) pairs every Create* function accepts (independent of the Coq model: read off
+# signatureAlgorithmDetails - SM2 algorithms are registered in the ECDSA family - and the MD2/MD5 refusals)
+_ACCEPTED = {"rsa": {0, 3, 4, 5, 6, 13, 14, 15}, "sm2": {0, 9, 10, 11, 12, 16, 17, 18}, "p256": {0, 9, 10, 11, 12, 16, 17, 18}}
+
+
+# ---- the predicate's own view of a created certificate: a small DER reader (python, independent of the package
+# under test, of the driver's comparison and of the Coq model) ----------------------------------------------------
+def _tlv(b, i):
+    """(identifier, content start, content end) of the element at offset i; raises on truncation / indefinite length"""
+    ident = b[i]
+    if ident & 0x1f == 0x1f:
+        raise ValueError("high tag number")
+    l = b[i + 1]
+    j = i + 2
+    if l & 0x80:
+        k = l & 0x7f
+        if k == 0 or k > 4:
+            raise ValueError("bad length")
+        l = int.from_bytes(b[j:j + k], "big")
+        j += k
+    if j + l > len(b):
+        raise ValueError("truncated")
+    return ident, j, j + l
+
+
+def _children(b, lo, hi):
+    out = []
+    while lo < hi:
+        ident, cs, ce = _tlv(b, lo)
+        out.append((ident, cs, ce))
+        lo = ce
+    if lo != hi:
+        raise ValueError("overrun")
+    return out
+
+
+def _oid(b):
+    arcs, v = [], 0
+    for x in b:
+        v = (v << 7) | (x & 0x7f)
+        if not x & 0x80:
+            arcs.append(v)
+            v = 0
+    first = arcs[0]
+    head = [first // 40, first % 40] if first < 80 else [2, first - 80]
+    return ".".join(str(a) for a in head + arcs[1:])
+
+
+def _time(ident, s):
+    import calendar
+    s = s.decode("ascii")
+    if ident == 0x17:
+        y = int(s[0:2])
+        y += 2000 if y < 50 else 1900
+        rest = s[2:]
+    elif ident == 0x18:
+        y = int(s[0:4])
+        rest = s[4:]
+    else:
+        raise ValueError("not a time")
+    if rest[-1] != "Z" or len(rest) != 11:
+        raise ValueError("time format")
+    mo, d, h, mi, se = (int(rest[k:k + 2]) for k in (0, 2, 4, 6, 8))
+    # days since the epoch in the proleptic Gregorian calendar (years 1..9999), without datetime's platform limits
+    import datetime
+    days = datetime.date(y, mo, d).toordinal() - datetime.date(1970, 1, 1).toordinal()
+    return days * 86400 + h * 3600 + mi * 60 + se
+
+
+SM2_P = 0xFFFFFFFEFFFFFFFFFFFFFFFFFFFFFFFFFFFFFFFF00000000FFFFFFFFFFFFFFFF
+SM2_B = 0x28E9FA9E9D9F5E344D5A9E4BCF6509A7F39789F515AB8F92DDBCBD414D940E93
+
+
+def cert_view(der):
+    """serial, validity, public key, key usage, basic constraints and SANs read from the DER of a certificate"""
+    ident, cs, ce = _tlv(der, 0)
+    if ident != 0x30 or ce != len(der):
+        raise ValueError("outer")
+    tbs, alg, sig = _children(der, cs, ce)
+    ch = _children(der, tbs[1], tbs[2])
+    k = 0
+    v = {}
+    if ch[0][0] == 0xa0:
+        k = 1
+    serial = ch[k]
+    v["serial"] = int.from_bytes(der[serial[1]:serial[2]], "big", signed=True)
+    validity = _children(der, ch[k + 3][1], ch[k + 3][2])
+    v["nb"] = _time(validity[0][0], der[validity[0][1]:validity[0][2]])
+    v["na"] = _time(validity[1][0], der[validity[1][1]:validity[1][2]])
+    spki = _children(der, ch[k + 5][1], ch[k + 5][2])
+    algo = _children(der, spki[0][1], spki[0][2])
+    v["keyalg"] = _oid(der[algo[0][1]:algo[0][2]])
+    v["curve"] = _oid(der[algo[1][1]:algo[1][2]]) if len(algo) > 1 and algo[1][0] == 6 else None
+    bits = der[spki[1][1]:spki[1][2]]
+    v["point"] = bits[1:]
+    v["ku"], v["bc"], v["dns"], v["emails"], v["ips"] = 0, None, [], [], []
+    for e in ch[k + 6:]:
+        if e[0] != 0xa3:
+            continue
+        (seq,) = _children(der, e[1], e[2])
+        for x in _children(der, seq[1], seq[2]):
+            parts = _children(der, x[1], x[2])
+            oid = _oid(der[parts[0][1]:parts[0][2]])
+            val = parts[-1]
+            vb = der[val[1]:val[2]]
+            if oid == "2.5.29.15":
+                i2, c2, e2 = _tlv(vb, 0)
+                pad, body = vb[c2], vb[c2 + 1:e2]
+                ku = 0
+                for i in range(9):
+                    if i < len(body) * 8 - pad and (body[i // 8] >> (7 - i % 8)) & 1:
+                        ku |= 1 << i
+                v["ku"] = ku
+            elif oid == "2.5.29.19":
+                i2, c2, e2 = _tlv(vb, 0)
+                isca, mpl = False, -1
+                for y in _children(vb, c2, e2):
+                    if y[0] == 1:
+                        isca = vb[y[1]] != 0
+                    elif y[0] == 2:
+                        mpl = int.from_bytes(vb[y[1]:y[2]], "big", signed=True)
+                v["bc"] = (isca, mpl)
+            elif oid == "2.5.29.17":
+                i2, c2, e2 = _tlv(vb, 0)
+                for y in _children(vb, c2, e2):
+                    body = vb[y[1]:y[2]]
+                    if y[0] & 0x1f == 2:
+                        v["dns"].append(body.hex())
+                    elif y[0] & 0x1f == 1:
+                        v["emails"].append(body.hex())
+                    elif y[0] & 0x1f == 7:
+                        v["ips"].append(body.hex())
+    return v
+
+
+def _check_cert_fields(f, io):
+    """compare the template fields of the case line with what the predicate reads from the DER itself"""
+    t = f[8].split(";")
+    v = cert_view(bytes.fromhex(io[11]))
+    if v["serial"] != int(t[0]):
+        return "serial number %d, template %s" % (v["serial"], t[0])
+    if v["nb"] != int(t[1]) or v["na"] != int(t[2]):
+        return "validity %d..%d, template %s..%s" % (v["nb"], v["na"], t[1], t[2])
+    if v["ku"] != int(t[3]):
+        return "key usage %d, template %s" % (v["ku"], t[3])
+    bcv, isca, mpl, zero = t[4].split(",")
+    if bcv == "1":
+        want = int(mpl)
+        if want == 0 and zero != "1":
+            want = -1                    # MaxPathLen 0 without MaxPathLenZero means "not set"
+        if v["bc"] != (isca == "1", want):
+            return "basic constraints %s, template isCA=%s pathlen=%d" % (v["bc"], isca, want)
+    elif v["bc"] is not None:
+        return "basic constraints extension present although BasicConstraintsValid is false"
+    ips = [x[24:] if len(x) == 32 and x.startswith(V4PREFIX) else x for x in _hexlist(t[7])]
+    if v["dns"] != _hexlist(t[5]) or v["emails"] != _hexlist(t[6]) or v["ips"] != ips:
+        return "subject alternative names differ from the template"
+    x, y = int(t[8], 16), int(t[9], 16)
+    pt = v["point"]
+    if v["keyalg"] != "1.2.840.10045.2.1" or v["curve"] != "1.2.156.10197.1.301":
+        return "public key algorithm / curve identifiers %s %s" % (v["keyalg"], v["curve"])
+    if len(pt) != 65 or pt[0] != 4 or int.from_bytes(pt[1:33], "big") != x or int.from_bytes(pt[33:], "big") != y:
+        return "public key differs from the subject key"
+    if (y * y - (x * x * x - 3 * x + SM2_B)) % SM2_P != 0:
+        return "public key is not a point of the SM2 curve"
+    return None
+
+
+def _accepts(f):
+    return f[2] == "crl" or _algo(f) in _ACCEPTED.get(f[3], set())
 
 
 def _in_property(f):
@@ -151,7 +334,18 @@ def _predicate_E(f, io):
     if kind in ("ncx", "tbs", "tbsc"):
         return True, ""              # arbitrary NameConstraints value / TBSCertList / TBSCertificate bytes: decided by comparison with the model
     if io[:2] == ["err", "create"]:
-        return True, ""              # template refused: the property speaks about accepted templates
+        # a refusal must be explained by the input: an object identifier encoding/asn1 cannot write, an empty or
+        # non-IA5 permitted domain; everything else the builders must accept
+        def oid_bad(o):
+            a = [int(x) for x in o.split(".")]
+            return len(a) < 2 or a[0] > 2 or (a[0] < 2 and a[1] >= 40)
+        if kind == "eku" and any(oid_bad(o) for o in f[4].split(",") if o != "-"):
+            return True, ""
+        if kind == "pol" and any(oid_bad(o) for o in f[3].split(",") if o != "-"):
+            return True, ""
+        if kind == "nc" and any(d == "" or any(b >= 128 for b in bytes.fromhex(d)) for d in _hexlist(f[4])):
+            return True, ""
+        return False, "%s extension: fields inside their documented domain were refused" % kind
     if io[:2] == ["err", "parse"]:
         if kind == "san" and any(len(x) not in (8, 32) for x in _hexlist(f[5])):
             return True, ""          # a net.IP that is neither 4 nor 16 bytes is no IP address
@@ -195,7 +389,11 @@ def _predicate(f, io):
         return False, "driver could not run the case: " + " ".join(io)
     created = io[1]
     if created == "0":
-        return True, ""                     # template (or algorithm) rejected: the property speaks about accepted templates
+        # a refusal is legitimate only when the (signer, algorithm) pair is not acceptable or the template carries a
+        # planted invalid value (field 8 = x, decided by the generator from the documented domains of the fields)
+        if len(f) > 7 and f[7] == "v" and _accepts(f):
+            return False, "valid template with an acceptable signature algorithm was refused (%s)" % io[-1]
+        return True, ""
     if created != "1":
         return False, "malformed observation"
     if not _in_property(f):
@@ -209,10 +407,17 @@ def _predicate(f, io):
     kind = f[2]
     if parse_equal != "1":
         return False, "created %s does not parse back to the template (%s)" % (kind, detail)
-    if v_issuer != "1":
-        return False, "created %s does not verify under the issuer's key" % kind
-    if v_other != "0":
-        return False, "created %s verifies under a different key" % kind
+    if kind == "cert" and len(f) > 8 and f[8] != "-" and len(io) > 11:
+        try:
+            w = _check_cert_fields(f, io)
+        except (ValueError, IndexError) as e:
+            w = "the DER of the created certificate is not readable (%s)" % e
+        if w:
+            return False, "created certificate, read independently: " + w
+    if set(v_issuer) != {"1"}:      # one character per entry point (certificates: CheckSignatureFrom, CheckSignature)
+        return False, "created %s does not verify under the issuer's key (entry points: %s)" % (kind, v_issuer)
+    if set(v_other) != {"0"}:
+        return False, "created %s verifies under a different key (entry points: %s)" % (kind, v_other)
     if s_tbs or s_sig or s_hdr:
         return False, "changed object still verifies (single-byte or arithmetic signature mutant): tbs=%d sig=%d hdr=%d (%s)" % (s_tbs, s_sig, s_hdr, detail)
     # s_alg > 0 (changes inside the outer signatureAlgorithm, which is neither signed nor the signature value) is
@@ -234,7 +439,7 @@ def _classify(f, io):
         lab += ":insecure"
     elif not _in_property(f):
         lab += ":crossfamily"
-    if io[3] != "1":
+    if set(io[3]) != {"1"}:
         lab += ":noverify"
     if io[2] != "1":
         lab += ":diff"
